@@ -39,8 +39,23 @@ class Stats:
 STATS = Stats()
 
 
+_sat_cache = {}
+
+
 def check_sat(formulas, timeout_ms=5000):
-    """sat / unsat / unknown for a conjunction."""
+    """sat / unsat / unknown for a conjunction (memoised: paths are explored by re-execution, so the same
+    queries recur; the formulas are kept alive with the entry so that ast ids stay unique)."""
+    key = (tuple(sorted(f.get_id() for f in formulas)), timeout_ms)
+    hit = _sat_cache.get(key)
+    if hit is not None:
+        return hit[0], None
+    r, s = _check_sat(formulas, timeout_ms)
+    if r != z3.unknown or timeout_ms >= 4000:
+        _sat_cache[key] = (r, list(formulas))
+    return r, s
+
+
+def _check_sat(formulas, timeout_ms=5000):
     s = z3.Solver()
     s.set('timeout', timeout_ms)
     for f in formulas:
@@ -124,7 +139,7 @@ class PathCtx:
         # (refutations are fast when they exist), first with a short, then with a real budget
         r2, _ = check_sat(allf, 400)
         if r2 == z3.unknown:
-            r2, _ = check_sat(allf, 15000)
+            r2, _ = check_sat(allf, 6000)
         return r2 != z3.unsat
 
     def branch(self, cond, careful=False):
@@ -183,23 +198,26 @@ class Explorer:
         """thunk(ctx) runs the program once from scratch under ctx and returns its value
         (or raises PyExc).  Returns list[PathResult]."""
         from .values import PyExc
-        while True:
-            try:
-                return self._explore(thunk, PyExc)
-            except Restart:
-                continue
+        return self._explore(thunk, PyExc)
 
     def _explore(self, thunk, PyExc):
         self.pending = [[]]
         results = []
         while self.pending:
             decisions = self.pending.pop()
+            mark = len(self.pending)
             ctx = PathCtx(self, decisions)
             self.cur = ctx
             Mutable.trail = ctx.trail
             try:
                 v = thunk(ctx)
                 results.append(PathResult(ctx, 'return', value=v))
+            except Restart:
+                # a merge site turned out not to be mergeable: only this path is re-run (the site now forks);
+                # alternatives this attempt had queued are dropped, the re-run queues them again
+                del self.pending[mark:]
+                self.pending.append(list(decisions))
+                continue
             except PyExc as e:
                 results.append(PathResult(ctx, 'raise', exc=e))
             except PathCut:
